@@ -78,6 +78,28 @@ func (r *Ratio) MoveShardToNode(shard *ShardLoadRatio, fromNode string, toNode s
 	}
 }
 
+// ReplaceInShardEnsembles records a swap in every node's copy of the shard: the next
+// swap of the same shard within the same round has to be computed against the ensemble
+// the shard will have, not against the one it had when the round started.
+func (r *Ratio) ReplaceInShardEnsembles(namespace string, shardID int64, fromNode string, toNode Server) {
+	for iter := r.nodeLoadRatios.Iterator(); iter.Next(); {
+		for shardIter := iter.Value().ShardRatios.Iterator(); shardIter.Next(); {
+			shard := shardIter.Value()
+			if shard.Namespace != namespace || shard.ShardID != shardID {
+				continue
+			}
+			// The slice is shared with the cluster status: never update it in place
+			ensemble := make([]Server, 0, len(shard.Ensemble))
+			for _, server := range shard.Ensemble {
+				if server.GetIdentifier() != fromNode {
+					ensemble = append(ensemble, server)
+				}
+			}
+			shard.Ensemble = append(ensemble, toNode)
+		}
+	}
+}
+
 func (r *Ratio) ReCalculateRatios() {
 	iter := r.nodeLoadRatios.Iterator()
 	if !iter.First() {
